@@ -202,6 +202,11 @@ class C09Monitor(jobsim.Monitor):
             detF = np.linalg.det(np.moveaxis(Fq, (0, 1), (-2, -1)))
             if detF.min() <= 0:
                 raise Discard("inverted-equilibrium-of-svk")
+            if doc.get("c09", {}).get("release_clamp"):
+                # the same non-uniqueness without inversion: started from the strongly non-homogeneous
+                # clamped state, Newton may settle on another stable equilibrium of this (not
+                # polyconvex) material; the homogeneous path from the undeformed state stays checked
+                raise Discard("other-equilibrium-of-svk-from-distorted-start")
         if d > (2e-6 * slack) * scale + 1e-10:
             self.V("affine-field", f"substep ({j},{i}): displacement field differs from the affine map by {d:.3e} (scale {scale:.3e}, {fam}, {case})", site=f"field[{w.mesh.cell_type}]", fault=fk)
         self.log.count("affine-field-checked")
